@@ -167,8 +167,20 @@ func (q *quorumAckTracker) AdvanceHeadOffset(headOffset int64) {
 
 	if q.requiredAcks == 0 {
 		q.notifyCommitOffsetAdvanced(headOffset)
-	} else {
+		return
+	}
+
+	e, found := q.tracker[headOffset]
+	if !found {
 		q.tracker[headOffset] = &util.BitSet{}
+		return
+	}
+
+	// The followers read the entry from the wal as soon as it's synced, which is slightly
+	// before the head offset is advanced: their acks were already there
+	if uint32(e.Count()) >= q.requiredAcks {
+		delete(q.tracker, headOffset)
+		q.notifyCommitOffsetAdvanced(headOffset)
 	}
 }
 
@@ -295,13 +307,24 @@ func (c *cursorAcker) ack(offset int64) {
 
 	e, found := q.tracker[offset]
 	if !found {
-		// The entry has already previously reached the quorum.
-		// There's nothing more left to do here.
-		return
+		if offset <= q.headOffset.Load() {
+			// The entry has already previously reached the quorum.
+			// There's nothing more left to do here.
+			return
+		}
+
+		// The follower was faster than the notification of the local sync:
+		// the ack is kept until the head offset gets there
+		e = &util.BitSet{}
+		q.tracker[offset] = e
 	}
 
 	// Mark that this follower has acked the entry
 	e.Set(c.cursorIdx)
+	if offset > q.headOffset.Load() {
+		return
+	}
+
 	if uint32(e.Count()) == q.requiredAcks {
 		delete(q.tracker, offset)
 
